@@ -1189,11 +1189,14 @@ def _tok_syntax(syn):
         elif sub[0] == 'size':
             toks += ['(', 'SIZE', '('] + _tok_ranges(sub[1]) + [')', ')']
         elif sub[0] in ('enum', 'bits'):
+            style = sub[2] if len(sub) > 2 else {}
             toks.append('{')
             for i, (lab, v) in enumerate(sub[1]):
-                if i:
+                if i and i not in style.get('drop_comma', ()):
                     toks.append(',')
                 toks += [lab, '(', str(v), ')']
+            if style.get('trailing_comma'):
+                toks.append(',')
             toks.append('}')
     return toks
 
@@ -1254,7 +1257,10 @@ def _tok_decl(d, v1):
                     t.append(',')
                 if imp:
                     t.append('IMPLIED')
-                t.append(ref[1] if isinstance(ref, list) else ref)
+                if isinstance(ref, list):
+                    t.append(ref[1])
+                else:
+                    t += ref.split(' ')
             t.append('}')
         if d.get('defval'):
             t += _tok_defval(d['defval'])
@@ -1342,6 +1348,8 @@ def _tok_decl(d, v1):
             if i:
                 t.append(',')
             t += [cn] + list(sx['tokens'])
+        if d.get('trailing_comma'):
+            t.append(',')
         return t + ['}']
     if k == 'macro':
         return [d['name'], 'MACRO', ('RAW', ' ::= ' + d['body'] + ' '), 'END']
@@ -1358,11 +1366,13 @@ def module_tokens(mod):
         t += ['EXPORTS', ('RAW', ' ' + mod['exports'] + ';')]
     if mod['imports']:
         t.append('IMPORTS')
-        for m, syms in mod['imports']:
+        for ci, (m, syms) in enumerate(mod['imports']):
             for i, s in enumerate(syms):
                 if i:
                     t.append(',')
                 t.append(s)
+            if ci in (mod.get('import_trailing_comma') or ()):
+                t.append(',')
             t += ['FROM', m]
         t.append(';')
     bounds = []
